@@ -6,6 +6,8 @@ CONSTANTS
   ZeroOldShortcut = TRUE
   Tear = FALSE
   MutLevel = 2
+  BigInit <- GenBig
+  Pairs <- GenPairs
 VIEW view
 INVARIANTS XRootOK XCompleteOK
 PROPERTIES XSoundOK XExactOK
